@@ -147,7 +147,8 @@ def _extract_one(unit, out_json, src_root, gen, tool_hash):
     if os.path.exists(meta_p) and os.path.exists(out_json):
         try:
             meta = json.load(open(meta_p))
-            if meta.get('tool') == tool_hash and meta.get('dephash') == _deps_hash(meta['deps']):
+            # the cached facts must be those of this very unit path (generated units move when the grammar / lexer specification changes) and of unchanged inputs
+            if meta.get('tool') == tool_hash and unit in meta['deps'] and meta.get('dephash') == _deps_hash(meta['deps']):
                 return ('cached', unit, None)
         except (ValueError, KeyError):
             pass
